@@ -200,3 +200,14 @@ def run_model(scripts, impl_outs=None, ovf=True, monitors=()):
     with ThreadPoolExecutor(NPROC) as ex:
         parts = list(ex.map(work, zip(sc, oc)))
     return [r for p in parts for r in p]
+
+
+def frame_classes(name, cfg, frames, model_run=None):
+    """Extracted class predicates (model_run.ml: classes_env) evaluated on frames -> list of bool."""
+    if not frames:
+        return []
+    text = cfg.model_line() + "\n" + "".join("CLS %s %s\n" % (name, f.hex()) for f in frames)
+    out = _run_proc([model_run or MODEL_RUN, build.ENVFILE, ""], text)
+    res = [l.strip() == "K 1" for l in out.split("\n") if l.startswith("K ")]
+    assert len(res) == len(frames), (len(res), len(frames))
+    return res
